@@ -308,6 +308,51 @@ func alignClosures(fn *ssa.Function, notes *[]string) {
 			*notes = append(*notes, fmt.Sprintf("function %s is used where the function literal %s was: the literal's contract is bound to it", cands[0].String(), oc.Name))
 		}
 	}
+	// A literal that is gone may now be produced by a factory literal (two
+	// identical worker literals replaced by `worker := func(dst) func() {...}`):
+	// look for a literal nested in one of fn's unmatched literals with the same
+	// signature.
+	for i, oc := range old.Closures {
+		if _, matched := oldTo[i]; matched {
+			continue
+		}
+		taken := false
+		for _, n := range nameOverride {
+			if n == oc.Name {
+				taken = true
+			}
+		}
+		if taken {
+			continue
+		}
+		var found *ssa.Function
+		var walk func(f *ssa.Function, depth int)
+		walk = func(f *ssa.Function, depth int) {
+			for _, a := range f.AnonFuncs {
+				if found != nil {
+					return
+				}
+				if _, done := nameOverride[a]; !done && depth > 0 && sigString(a) == oc.Sig {
+					found = a
+					return
+				}
+				walk(a, depth+1)
+			}
+		}
+		for j, a := range fn.AnonFuncs {
+			if _, m := newTo[j]; m {
+				continue // a matched literal keeps its own nested literals
+			}
+			if found == nil {
+				walk(a, 1)
+			}
+		}
+		if found != nil {
+			nameOverride[found] = oc.Name
+			oldTo[i] = -1
+			*notes = append(*notes, fmt.Sprintf("function literal %s (nested) is the one contracts call %s", found.String(), oc.Name))
+		}
+	}
 	for j, a := range fn.AnonFuncs {
 		natural := shortName(a)
 		if i, ok := newTo[j]; ok {
